@@ -192,8 +192,13 @@ where
     where
         A: BDDKeyInfos,
     {
+        let ks_glwe: usize = match infos.ks_glwe_infos() {
+            Some(ks_glwe_infos) => self.glwe_switching_key_encrypt_sk_tmp_bytes(&ks_glwe_infos),
+            None => 0,
+        };
         self.circuit_bootstrapping_key_encrypt_sk_tmp_bytes(&infos.cbt_infos())
             .max(self.glwe_to_lwe_key_encrypt_sk_tmp_bytes(&infos.ks_lwe_infos()))
+            .max(ks_glwe)
     }
 
     #[allow(clippy::too_many_arguments)]
